@@ -160,6 +160,8 @@ def scope_arg_coq(a):
     return '(SStr %s)' % C.cstr(a)
   if isinstance(a, list):
     return '(SList %s)' % C.cstrs(a)
+  if isinstance(a, dict) and 'captured' in a:
+    return '(SList %s)' % C.cstrs(a['value'])     # the scope an enclosing block yielded: to the model, a list with that value
   return 'SBad'
 
 
@@ -547,12 +549,20 @@ class Machine:
       self.emit(self.canon(r))
     elif k == 'with':
       arg = op[1]
-      if isinstance(arg, dict):   # SBad
+      if isinstance(arg, dict) and 'captured' in arg:
+        # re-enter the very list OBJECT that the k-th enclosing block yielded (`with config_scope(..) as s: ... config_scope(s)`)
+        objs = getattr(self, 'scope_objs', [])
+        arg = objs[-1 - arg['captured']] if arg['captured'] < len(objs) else list(arg['value'])
+      elif isinstance(arg, dict):   # SBad
         arg = RaisingScope() if arg.get('raises') else 5
       with gin.config_scope(arg) as sc:
         self.emit(list(sc))
-        for o in op[2]:
-          self.exec_op(o, depth + 1)
+        self.scope_objs = getattr(self, 'scope_objs', []) + [sc]
+        try:
+          for o in op[2]:
+            self.exec_op(o, depth + 1)
+        finally:
+          self.scope_objs = self.scope_objs[:-1]
     elif k == 'raise':
       if len(op) > 1 and op[1] == 'base':
         raise BaseBoom('boom')       # leaves every enclosing block like KeyboardInterrupt / SystemExit / GeneratorExit would
